@@ -158,6 +158,10 @@ def split(s, sep, maxsplit=-1):
     a0 = s.single_atom()
     if a0 is not None and a0.kind == 'mac' and sep == '-' and maxsplit < 0:
         # 'AA-BB-CC-DD-EE-FF': six two-digit upper-case hex groups
+        from .values import digits_hint
+        octs = digits_hint(a0.t, 6)
+        if octs is not None:
+            return [SStr([Atom('hexbyte', octs[k])]) for k in range(6)]
         return [SStr([Atom('hexbyte', z3.simplify((a0.t / (256 ** (5 - k))) % 256))]) for k in range(6)]
     if len(sep) != 1:
         return split_multi(s, sep, maxsplit)
